@@ -220,7 +220,13 @@ func verifUniverse() *verifU {
 			r1, r0 = verifBigPos("pool10.r1"), verifBigPos("pool10.r0")
 		}
 		vol[verifCoinBancor].Add(vol[verifCoinBancor], r1)
-		lpSupply = verifBigPos("pool10.lp")
+		if verifConfig("concreteLP") == 1 {
+			// liquidity arithmetic multiplies by the pool token supply: concrete
+			// in the liquidity harnesses
+			lpSupply, _ = new(big.Int).SetString("600000000000000000005", 10)
+		} else {
+			lpSupply = verifBigPos("pool10.lp")
+		}
 		verifAssume(lpSupply.Cmp(big.NewInt(1000)) > 0)
 		id := verifSeedPool(st, verifCoinBancor, 0, r1, r0)
 		if verifConfig("lp10") == 1 {
@@ -283,10 +289,12 @@ func verifUniverse() *verifU {
 	verifAssume(res1.Cmp(minCoinReserve) >= 0)
 	max1 := verifBigPos("coin1.max")
 	verifAssume(vol[verifCoinBancor].Cmp(max1) <= 0)
+	verifAssume(max1.Cmp(maxCoinSupply) <= 0) // CreateCoin / CreateToken enforce it
 	ownerA := u.A
 	st.Coins.Create(verifCoinBancor, verifSym("AAA"), "bancor coin", vol[verifCoinBancor], crr, res1, max1, &ownerA)
 	max2 := verifBigPos("coin2.max")
 	verifAssume(vol[verifCoinToken].Cmp(max2) <= 0)
+	verifAssume(max2.Cmp(maxCoinSupply) <= 0)
 	st.Coins.CreateToken(verifCoinToken, verifSym("TOK"), "token", true, true, vol[verifCoinToken], max2, &ownerA)
 	if verifConfig("route5") == 1 {
 		st.App.SetCoinsCount(5)
